@@ -936,6 +936,16 @@ SUBST_CONSTANTS = [('HplVacuousTruth', 'replace_var_reference'), ('HplVacuousTru
                    ('HplContradiction', 'replace_var_reference'), ('HplContradiction', 'replace_self_reference')]
 
 
+def _subst_eval(ctx: Ctx) -> Evaluator:
+    """the default evaluator, except that calls of the substitution methods themselves stay visible as calls (a
+    non-virtual base-class implementation would otherwise be looked through at the delegation site)"""
+    def build():
+        def pol(f: FunctionInfo, d: int) -> bool:
+            return f.name not in ('replace_var_reference', 'replace_self_reference') and default_inline(f, d)
+        return Evaluator(ctx.model, inline=pol)
+    return ctx.memo('subst_eval', build)
+
+
 def R5b(ctx: Ctx) -> RuleResult:
     r = RuleResult('R5b', 'substitutions are carried through the containers of an expression: a predicate / simple event / event disjunction answers replace_var_reference (replace_self_reference) with self.but(<child>=<child>.<same method>(<the same arguments, in order>)) for every child that can hold references, returning itself only when every child came back unchanged; the vacuous predicates return themselves')
     n = 0
@@ -947,9 +957,8 @@ def R5b(ctx: Ctx) -> RuleResult:
         ps = fi.params()
         self_t = Sym('self', cname)
         params = tuple(Sym(p_) for p_ in ps[1:])
-        outs = expand_outcomes(ctx.ev.run(fi, dict([('self', self_t)] + [(p_, Sym(p_)) for p_ in ps[1:]]), self_cls=c))
+        outs = expand_outcomes(_subst_eval(ctx).run(fi, dict([('self', self_t)] + [(p_, Sym(p_)) for p_ in ps[1:]]), self_cls=c))
         key = f'{cname}.{meth}'
-        want = {f: Call(BoundMethodOf(ctx, Attr(self_t, f), meth), params) for f in fields}
         rebuilt = False
         for o in outs:
             n += 1
@@ -992,7 +1001,7 @@ def R5b(ctx: Ctx) -> RuleResult:
         c = ctx.model.cls(cname, 'R5b')
         fi = c.resolve(meth)
         self_t = Sym('self', cname)
-        outs = ctx.ev.run(fi, {'self': self_t}, self_cls=c)
+        outs = _subst_eval(ctx).run(fi, {'self': self_t}, self_cls=c)
         n += 1
         if len(outs) == 1 and outs[0].kind == 'return' and outs[0].value == self_t:
             r.ok(f'{cname}.{meth} -> self')
@@ -1000,10 +1009,6 @@ def R5b(ctx: Ctx) -> RuleResult:
             r.fail(f'{cname}.{meth}', f'a constant predicate does not answer a substitution with itself: {[str(o)[:60] for o in outs]}', fi.where)
     r.floor('substitution paths', n, 8)
     return r
-
-
-def BoundMethodOf(ctx: Ctx, recv: Term, name: str):
-    return Attr(recv, name)
 
 
 # ------------------------------------------------------------------------ R5
@@ -1079,7 +1084,7 @@ def R5(ctx: Ctx) -> RuleResult:
     ss = Sym('self', 'HplSimpleEvent')
     good = False
     if pi is not None:
-        for o in ctx.ev.run(pi, {'self': ss}, self_cls=se):
+        for o in _subst_eval(ctx).run(pi, {'self': ss}, self_cls=se):
             for e in o.effects:
                 if isinstance(e, Call) and isinstance(e.func, Ext) and e.func.name == 'object.__setattr__' and len(e.args) == 3 and e.args[0] == ss and e.args[1] == Const('predicate'):
                     v = e.args[2]
@@ -1132,6 +1137,13 @@ def R4b(ctx: Ctx) -> RuleResult:
     for name, kind in (('get_conjuncts', 'and'), ('get_disjuncts', 'or')):
         fi = ctx.model.func('hpl.rewrite', name, 'R4b')
         outs = ev.run(fi, {fi.params()[0]: x})
+        if not any(isinstance(e, Loop) for o in outs for e in o.effects) and any(isinstance(o.value, Call) and isinstance(o.value.func, FuncRef) for o in outs):
+            # both flatteners share one private helper (parameterised by the operator test): looked through
+            helpers = {o.value.func.key for o in outs if isinstance(o.value, Call) and isinstance(o.value.func, FuncRef)}
+
+            def pol_h(f, d, helpers=helpers, base=ev.inline):
+                return f.key in helpers or base(f, d)
+            outs = Evaluator(ctx.model, inline=pol_h).run(fi, {fi.params()[0]: x})
         good = False
         for o in outs:
             for e in o.effects:
@@ -1141,6 +1153,9 @@ def R4b(ctx: Ctx) -> RuleResult:
                         is_k = any(pol and any(isinstance(y, Attr) and y.name == f'is_{kind}' for y in walk(t)) for t, pol in pg)
                         not_k = any((not pol) and any(isinstance(y, Attr) and y.name == f'is_{kind}' for y in walk(t)) for t, pol in pg)
                         apps = method_calls(list(effs), 'append')
+                        for c_ in method_calls(list(effs), 'extend'):
+                            if c_.args and isinstance(c_.args[0], TupleT):
+                                apps = apps + [Call(c_.func, (x_,)) for x_ in c_.args[0].items]   # extend((a, b)) == append(a); append(b)
                         if is_k and len(apps) == 2 and {getattr(canon(a.args[0]), 'name', None) for a in apps} == {'operand1', 'operand2'}:
                             pushed = True
                         if not_k and len(apps) == 1:
